@@ -26,7 +26,7 @@ def explore(wd, script, max_runs, max_deliv=2, max_bogus=1, workers=6, timeout=1
     cfg = _cfg(wd, f"MC_{script}.cfg", max_runs, max_deliv, max_bogus, True, ["NoViolation"], ids)
     res = run_tlc("MCNet.tla", cfg, wd, env={"SCRIPT": os.path.join(CAT, script + ".json")}, workers=workers, timeout=timeout, heap="8g")
     mv = None
-    m = re.search(r'<<"MODELVIOL", (\{[^}]*\}), "(.*)">>', res["out"])
+    m = re.search(r'<<"MODELVIOL", (\{[^}]*\}), "(.*)", \d+>>', res["out"])
     if m:
         mv = {"props": re.findall(r'"(C\d+)"', m.group(1)), "schedule": json.loads(m.group(2).replace('\\"', '"'))}
     elif not res["completed"] or res["errors"]:
@@ -42,7 +42,7 @@ def emit(wd, script, max_runs, max_deliv=2, max_bogus=1, simulate=None, cap=400,
     res = run_tlc("MCNet.tla", cfg, wd, env={"SCRIPT": os.path.join(CAT, script + ".json")}, workers=1 if simulate else workers,
                   timeout=timeout, heap="8g", simulate=simulate, extra=(["-seed", str(seed())] if simulate else None))
     scheds, seen = [], set()
-    for m in re.finditer(r'<<"SCHED", "(.*)">>', res["out"]):
+    for m in re.finditer(r'<<"SCHED", "(.*)", \d+>>', res["out"]):
         s = m.group(1).replace('\\"', '"')
         if s in seen:
             continue
@@ -66,3 +66,74 @@ def emit(wd, script, max_runs, max_deliv=2, max_bogus=1, simulate=None, cap=400,
         h["source"] = "tlc:" + script
         hs.append(h)
     return hs, {"script": script, "emitted": len(scheds), "kept": len(keep), "states": res["states"]}
+
+
+# ---------------------------------------------------------------------------------------------------------------
+# generated script family (spec/ScriptGen.tla): TLC takes one initial state per script of the family
+def _gen_env(k, level, window=None):
+    env = {"GEN_K": k, "GEN_LEVEL": level}
+    if window:
+        env["GEN_FROM"], env["GEN_TO"] = window
+    return env
+
+
+def gen_scripts(wd, k, level):
+    """The family itself, as catalogue-like entries (script index -> entry)."""
+    cfg = _cfg(wd, f"GS_{k}_{level}.cfg", 0, 0, 0, True, ["EmitScripts"])
+    res = run_tlc("MCNet.tla", cfg, wd, env=_gen_env(k, level), workers=1, timeout=900, heap="4g")
+    out = {}
+    for m in re.finditer(r'<<"GENSCRIPT", (\d+), "(.*)">>', res["out"]):
+        out[int(m.group(1))] = json.loads(m.group(2).replace('\\"', '"'))
+    if not out:
+        log(tlc_tail(res))
+        raise ToolError("script family emission failed")
+    peers = ["A", "B", "C"] if level >= 3 else ["A", "B"]
+    return {i: {"hid": 0, "name": f"G{k}.{level}.{i}", "script": s, "init": "A", "peers": peers, "particle": "particle-1",
+                "source": f"scriptgen:{k}:{level}:{i}", "joinfree": False} for i, s in out.items()}
+
+
+def explore_gen(wd, k, level, max_runs, max_deliv=1, max_bogus=0, workers=8, timeout=3000, ids=(), window=None):
+    """Exhaustive model checking of every schedule of every script of the family (or an index window of it)."""
+    cfg = _cfg(wd, f"MCG_{k}_{level}.cfg", max_runs, max_deliv, max_bogus, True, ["NoViolation"], ids)
+    res = run_tlc("MCNet.tla", cfg, wd, env=_gen_env(k, level, window), workers=workers, timeout=timeout, heap="12g")
+    mv = None
+    m = re.search(r'<<"MODELVIOL", (\{[^}]*\}), "(.*)", (\d+)>>', res["out"])
+    if m:
+        mv = {"props": re.findall(r'"(C\d+)"', m.group(1)), "schedule": json.loads(m.group(2).replace('\\"', '"')), "sid": int(m.group(3))}
+    elif not res["completed"] or res["errors"]:
+        log(tlc_tail(res))
+        raise ToolError(f"design run for the generated family {k}/{level} did not complete")
+    ninit = re.search(r"Finished computing initial states: (\d+) distinct state", res["out"])
+    return {"script": f"ScriptGen!Family({k},{level})" + (f"[{window[0]}..{window[1]}]" if window else ""),
+            "scripts": int(ninit.group(1)) if ninit else 0, "states": res["states"], "transitions": res["transitions"],
+            "model_violation": mv, "bounds": {"MaxRuns": max_runs, "MaxDeliveries": max_deliv, "MaxBogus": max_bogus}, "wall": round(res["wall"], 1)}
+
+
+def emit_gen(wd, entries, k, level, max_runs, max_deliv=1, max_bogus=0, simulate="num=300", cap=300, window=None, timeout=900):
+    """Random behaviours (script x schedule) of the family for replay on the implementation."""
+    cfg = _cfg(wd, f"EMG_{k}_{level}.cfg", max_runs, max_deliv, max_bogus, False, ["EmitSchedules"])
+    res = run_tlc("MCNet.tla", cfg, wd, env=_gen_env(k, level, window), workers=1 if simulate else 4, timeout=timeout, heap="8g",
+                  simulate=simulate, extra=(["-seed", str(seed())] if simulate else None))
+    seen, hs = set(), []
+    for m in re.finditer(r'<<"SCHED", "(.*)", (\d+)>>', res["out"]):
+        key = (m.group(2), m.group(1))
+        if key in seen:
+            continue
+        seen.add(key)
+    # maximal schedules per script
+    by = {}
+    for sid, s in seen:
+        by.setdefault(int(sid), []).append(s.replace('\\"', '"'))
+    for sid, lst in sorted(by.items()):
+        lst.sort(key=len, reverse=True)
+        keep = []
+        for k2 in lst:
+            if not any(o.startswith(k2[:-1]) and o != k2 for o in keep):
+                keep.append(k2)
+        for k2 in keep[:3]:
+            h = dict(entries[sid])
+            h["steps"] = json.loads(k2)
+            h["observe"] = True
+            h["source"] = entries[sid]["source"] + ":tlc"
+            hs.append(h)
+    return hs[:cap], {"script": f"ScriptGen!Family({k},{level})", "emitted": len(seen), "kept": min(len(hs), cap), "states": res["states"]}
